@@ -299,7 +299,7 @@ def _rs_shape(rng, ndim):
     return G.rand_shape(rng, ndim, max_len={1: 24, 2: 12, 3: 7, 4: 5}[ndim], max_total=1500)
 
 
-def _rs_call(ds, lens, axes_arg, arg_form, shape, axes, inplace, ctx, fields):
+def _rs_call(ds, lens, axes_arg, arg_form, shape, axes, inplace, ctx, fields, free=None):
     kw = {}
     if axes_arg is not None:
         kw["axes"] = axes_arg
@@ -308,7 +308,7 @@ def _rs_call(ds, lens, axes_arg, arg_form, shape, axes, inplace, ctx, fields):
     elif arg_form == "out_shape_list":
         kw["out_shape"] = [np.int64(m) for m in lens]
     else:
-        kw["factors"] = tuple(m / shape[ax] for m, ax in zip(lens, axes))
+        kw["factors"] = tuple(m / shape[ax] for m, ax in zip(lens, axes)) if free is None else (free if len(set(free)) > 1 else free[0])
     if inplace:
         r = ds.fourier_resample(modify_in_place=True, **kw)
         ctx.check(r is None, "inplace_returns_value", "fourier_resample(modify_in_place=True) returned %r" % type(r).__name__, **fields)
@@ -354,6 +354,12 @@ def _case_rs(spec, idx, ctx):
     else:
         lens = _pick_out_lens(rng, shape, axes, "any")
     arg_form = ["out_shape", "out_shape", "out_shape_list", "factors"][int(rng.integers(4))]
+    free_factors = None
+    if arg_form == "factors" and sub == "laws" and rng.random() < 0.6:
+        # factors that are not the ratio of two lengths: length*factor is generally not an integer, the library rounds, and the
+        # calibration must follow the *realised* ratio (extent and centre laws are evaluated on the actual result shape)
+        free_factors = tuple(float(rng.choice([0.5, 1.5, 0.3, 0.7, 2.0, 1.0 / 3.0, 0.75, 1.25, 2.5, 0.45])) for _ in axes)
+        lens = [max(1, int(round(shape[ax] * f))) for ax, f in zip(axes, free_factors)]
     a2m = dict(zip(axes, lens))
     exp_shape = tuple(a2m.get(i, shape[i]) for i in range(ndim))
     what = lambda: "shape=%s dtype=%s axes=%r -> %s via %s inplace=%s" % (shape, dtype, axes_arg, exp_shape, arg_form, inplace)
@@ -372,7 +378,7 @@ def _case_rs(spec, idx, ctx):
     if sub == "laws":
         ds = _make(ctx, rng, a)
         o0, s0 = _cal(ds)
-        res = _rs_call(ds, lens, axes_arg, arg_form, shape, axes, inplace, ctx, fields)
+        res = _rs_call(ds, lens, axes_arg, arg_form, shape, axes, inplace, ctx, fields, free=free_factors)
         if not shape_ok(res):
             return
         out = np.asarray(res.array)
